@@ -23,7 +23,7 @@ restrict: stream_encoder_update.function_pointer_call.1/stub_block_update
 fn: stream_encoder_update
 sentinels: 4
 expect: 20
-desc: stream_encoder_update (lzma_filters_update on a Stream encoder): the new chain is copied first; between Blocks a new Block encoder is initialised with it, inside a Block only the Block encoder's own update is tried, after the last Block it is a PROG_ERROR; on EVERY failure the encoder's current filter chain is untouched and the temporary copy is freed (the encoder stays usable with the old settings); on success the old chain is freed and replaced by the copy
+desc: stream_encoder_update (lzma_filters_update on a Stream encoder): the new chain is copied first; between Blocks a new Block encoder is initialised with it, inside a Block only the Block encoder's own update is tried, after the last Block it is a PROG_ERROR; on EVERY failure the encoder's current filter chain is untouched, the temporary copy is freed and no half-initialised Block encoder is marked as ready (the encoder stays usable with the old settings); on success the old chain is freed and replaced by the copy
 assume: lzma_filters_copy / lzma_filters_free / block_encoder_init's callees are recording stubs
 */
 
@@ -168,6 +168,7 @@ void h_se_update(void)
 		ASSERT(C.filters[0].id == 0x21 && C.block_options.filters == C.filters, "failed update: the encoder keeps its current chain");
 		ASSERT(GE.frees == 1 && GE.freed[0] != C.filters, "failed update: only the temporary copy is freed");
 		if (IN.seq > SEQ_BLOCK_ENCODE) ASSERT(r == LZMA_PROG_ERROR, "no update after the last Block");
+		if (IN.seq <= SEQ_BLOCK_INIT) ASSERT(!C.block_encoder_is_initialized, "a failed re-initialisation between Blocks leaves NO pre-initialised Block encoder behind (it may be torn down): the next Block initialises a fresh one with the old chain");
 		REACH(upd_failed);
 		return;
 	}
